@@ -302,13 +302,13 @@ def _exec_prefix(doc, res):
     record = bytes.fromhex(doc['record'])
     total = len(record)
     lengths = doc.get('lengths')
-    complete = lengths is None and total <= 4096
+    complete = lengths is None and total <= 2048
     if lengths is None:
         if complete:
             lengths = range(total)
         else:
-            lengths = sorted(set(list(range(0, 64)) + list(range(total - 32, total)) +
-                                 [total * i // 257 for i in range(257)]))
+            lengths = sorted(set(list(range(0, 48)) + list(range(total - 16, total)) +
+                                 [total * i // 97 for i in range(97)]))
             lengths = [h for h in lengths if 0 <= h < total]
     for h in lengths:
         layer = wire.Layer(channel.name, cls, 'strict', res, PROPERTY, truth=[total])
